@@ -34,6 +34,9 @@ pub struct Profile {
     pub no_failures: bool,
     /// Names / doc strings with quotes, markup, backslashes and non-ASCII characters (reporters).
     pub spicy: bool,
+    /// All features of the plan share one name, and all rules of a feature share one (scenario
+    /// names stay unique): whatever keys by name instead of by `Source` identity merges them.
+    pub dup_names_pm: u64,
 }
 
 impl Profile {
@@ -56,6 +59,7 @@ impl Profile {
             tracing: false,
             no_failures: false,
             spicy: false,
+            dup_names_pm: 0,
         }
     }
 
@@ -107,7 +111,11 @@ impl Profile {
                 p.hooks_pm = 850;
                 p.faults_pm = 1000;
             }
+            "C11" | "C12" | "C13" => {
+                p.dup_names_pm = 120;
+            }
             "C14" => {
+                p.dup_names_pm = 120;
                 p.spicy = true;
                 p.hooks_pm = 700;
                 p.retries_pm = 600;
@@ -218,6 +226,7 @@ pub fn gen_plan(seed: u64, prof: &Profile) -> Plan {
     // ---- features
     let mut features = Vec::new();
     let mut budget = max_sc;
+    let dup_names = prof.dup_names_pm > 0 && r.chance(prof.dup_names_pm, 1000);
     let mut c = Ctx { r: &mut r, p: prof, undefined, doc_strings: prof.spicy, spicy_names: prof.spicy };
     let _ = c.p;
     for fi in 0..n_feat {
@@ -286,11 +295,13 @@ pub fn gen_plan(seed: u64, prof: &Profile) -> Plan {
             let rbg = gen_steps(&mut c, &format!("{rid}bg"), nrbg);
             let scs = mk_scs(&mut c, &rid, per[ri + 1]);
             let rspice = if prof.spicy { *c.r.pick(SPICE) } else { "" };
-            rules.push(RuleSpec { name: format!("{rid} rule{rspice}"), tags: rtags, background: rbg, scenarios: scs });
+            let rname = if dup_names { "Rdup rule".to_owned() } else { format!("{rid} rule{rspice}") };
+            rules.push(RuleSpec { name: rname, tags: rtags, background: rbg, scenarios: scs });
         }
         let path = c.r.chance(3, 4).then(|| format!("/sim/features/{fid}.feature"));
         let fspice = if prof.spicy { *c.r.pick(SPICE) } else { "" };
-        features.push(FeatureSpec { name: format!("{fid} feature{fspice}"), path, tags: ftags, background, scenarios, rules });
+        let fname = if dup_names { "Fdup feature".to_owned() } else { format!("{fid} feature{fspice}") };
+        features.push(FeatureSpec { name: fname, path, tags: ftags, background, scenarios, rules });
     }
     drop(c);
 
